@@ -331,9 +331,23 @@ def canonical_hash(x):
     return hashlib.sha1(json.dumps(x, sort_keys=True, default=str).encode()).hexdigest()
 
 
+def _clip(x, limit=1000):
+    """Observations of a run-away implementation can hold millions of events; the replay keeps the case (which
+    reproduces everything) in full and clips over-long recorded lists."""
+    if isinstance(x, dict):
+        return {k: (_clip(v, limit) if k != "case" else v) for k, v in x.items()}
+    if isinstance(x, list):
+        if len(x) > limit:
+            return [_clip(v, limit) for v in x[: limit // 2]] + [f"... {len(x) - limit} entries clipped ..."] + \
+                   [_clip(v, limit) for v in x[-(limit // 2):]]
+        return [_clip(v, limit) for v in x]
+    return x
+
+
 def write_replay(pid, kind, payload):
     d = REPLAYS / pid
     d.mkdir(parents=True, exist_ok=True)
+    payload = _clip(payload)
     h = canonical_hash(payload)[:12]
     p = d / f"{kind}_{h}.json"
     p.write_text(json.dumps(payload, indent=1, default=str))
